@@ -1,5 +1,5 @@
 CONSTANTS
-  NC = 2
+  NC = 1
   NL = 2
   WRun = {}
   WTerm = {}
@@ -7,7 +7,7 @@ CONSTANTS
   MaxStart = 1
   ParentCancels = TRUE
   Presents = {{"start","run","stop"}}
-  RunModes = {"any"}
+  RunModes = {"any","timer"}
   GuardNilCancel = @@GUARD@@
 INIT Init
 NEXT Next
